@@ -6,7 +6,7 @@ MODEL = {"quick": dict(Vals="{0, 1, 2}", MaxH=3, Scenario='"faithful"'),
 # unfaithful codecs: each must violate the property predicates (the predicates are not vacuous)
 NEGATIVE = ["skipfield", "rename", "noguard", "skipmiddle"]
 GEN = {"quick": dict(MaxData=1, MaxChain=2), "thorough": dict(MaxData=3, MaxChain=3)}
-INVS = ["InvTwins", "InvDecodes", "InvSameVal", "InvVerdict", "InvGuard"]
+INVS = ["InvTwins", "InvDecodes", "InvSameVal", "InvVerdict", "InvGuard", "InvIncremental"]
 ACTIONS = ["Observe", "RoundTrip", "Rearm"]
 TRACE_CONST = dict(Vals="{}", MaxH=0, Scenario='"trace"')
 
